@@ -236,10 +236,11 @@ class Module:
         self.inlined = inline.inline_new_helpers(self.tree, name)
         # surface normalisation (in memory only): annotated assignments inside functions become plain ones, statements
         # that only talk to the standard library's logging become `pass` - both are behaviour-neutral spellings
+        from . import alias
+        unknown_map = alias.unknown_locals(self.tree, name)
         self.normalised = _SurfaceNormaliser(_stdlib_logger_names(self.tree)).run(self.tree)
         # local aliases the reference tree does not know are substituted back into their uses (see sa/alias.py)
-        from . import alias
-        self.aliases_inlined = alias.inline_aliases(self.tree, name)
+        self.aliases_inlined = alias.inline_aliases(self.tree, name, unknown_map)
         # alpha-normalise locals back to the names the rules use (see sa/localsig.py); in-memory only
         from . import localsig
         self.renamed_locals = localsig.normalise(self.tree, name)
